@@ -111,6 +111,13 @@ def check(repo, tier):
                 ex_ = e['cond'].tags.get('expr') if isinstance(e.get('cond'), Arr) else None
                 if ex_ and ex_[0] in ('gt', 'ge') and e.get('fn') is not None and e['fn'].mod == MOD and e['fn'].name != variant and isinstance(ex_[1][1], (int, float)):
                     rm_cuts.setdefault((variant, thr), set()).add(float(ex_[1][1]))
+            # x[k] and y[k] are paired element by element: neither set is re-ordered on its own
+            for e in sc.events('reorder'):
+                if isinstance(e.get('array'), Arr) and isinstance(e['array'].tags.get('role'), tuple) and l2rules.in_modules(e, mods):
+                    where, cons, f_, ln = l2rules.ev_where(repo, e, mods)
+                    run.oblige('D1', (where, cons, 'pairing'), False)
+                    run.add(Finding('C18', 'D1', where, cons, f'{scen}: the index set {e["array"].tags["role"]} is sorted on its own: snapshot x[j] is no longer paired with y[j] unless y is an '
+                                    f'increasing function of x', f_, ln))
             # the caller's index sets select snapshots as NumPy indexing does (an entry -1 is the last snapshot)
             for e in sc.events('index-mode'):
                 if e['mode'] == 'clip' and l2rules.in_modules(e, mods):
